@@ -91,6 +91,12 @@ CHECKS["C14"] = dict(
     text="For block sizes 3..8 every payload length 0..2B+2, seeded write/read segmentations, every single-bit flip and every cut of the block stream; for the production constants payloads 0, 1, a few KB, around one and two 2 MB blocks, with and without compression, seeded segmentations and chunkings of the validator, flips at every region boundary of header block / blocks / tail plus random offsets, cuts, and shrink: TLC checks size = formula, read-back identical, validator accepts exactly the writer's output, a perturbation is refused or harmless, a shrunk file loads as empty.",
     note="Trusted: TLC, the sfsim driver (harness/rsm/sfsim_test.go); CRC32 strength is assumed, not modelled; the bit-level sweep is execution of the real code with the specification as the expectation table (DESIGN.md section 6). Recorded findings (header block not protected) are reported as KNOWN-FINDING.")
 
+CHECKS["C17"] = dict(
+    category="model_checking", design_ref="5 C17",
+    technique="TLA+ bounded-progress predicate (RaftSys.tla ProgressPred) evaluated by TLC on real executions: seeded fault prefix + scripted attack prefixes, then a fair fault-free period on the real raft code",
+    text="After a seeded fault prefix (loss, duplication, partitions incl. single cut links, crashes, restarts, membership changes, transfers, snapshots/compaction) every started replica runs, no message is lost, replicas get pairwise distinct election timeouts and a fair scheduler runs 2x40 (thorough 2x60) rounds with a probe proposal and a probe linearizable read at every replica; TLC then requires: a leader exists, every running member is in its term and caught up to its commit index (by log or snapshot), every probe completed. All PreVote/CheckQuorum settings; every step is also checked against Raft.tla.",
+    note=RAFT_NOTE + " Progress within the stated bound, not unbounded liveness; quiesce and the rate limiter are outside rsim; replicas whose removal was applied are stopped before the fair period (a removed replica that keeps running disrupts elections without PreVote/CheckQuorum: known Raft behaviour).")
+
 NOT_APPLICABLE = {
     "C13": "encode/decode fidelity and size arithmetic of hand-written codecs over the numeric input space: no state/transition structure for a TLA+ specification to describe (DESIGN.md section 6)",
 }
@@ -142,7 +148,7 @@ def main():
         },
         "engines": [
             {"name": "tlc+rsim", "path": "/verif/lib/raftfamily.py",
-             "serves_properties": ["C02", "C03", "C06", "C07", "C18"],
+             "serves_properties": ["C02", "C03", "C06", "C07", "C17", "C18"],
              "kind_free_text": "TLC exhaustive model checking of MCRaft + TLC trace validation (RaftTrace) of executions of the real internal/raft recorded by the rsim harness"},
             {"name": "tlc+smsim", "path": "/verif/lib/rsmchecks.py", "serves_properties": ["C05", "C08", "C07"],
              "kind_free_text": "TLC model checking of MCRSM + TLC trace validation (RSMTrace) of real rsm.StateMachine instances driven by harness/rsm/smsim_test.go"},
